@@ -52,7 +52,8 @@ def _inputs(ctx, mod):
     # for every writer configuration: state carried from one write into the next
     pool = [("build", "b_plain"), ("build", "b_styled"), ("build", "b_unclosed"), ("build", "b_px"), ("build", "b_multi"),
             ("DFXP", "dfxp2"), ("SAMI", "sami4"), ("WebVTT", "vtt2"), ("SCC", "scc2"),
-            ("build", "b_textalign"), ("SAMI", "sami_ta"), ("DFXP", "dfxp_ta")]
+            ("build", "b_textalign"), ("SAMI", "sami_ta"), ("DFXP", "dfxp_ta"), ("build", "b_nodelayouts"),
+            ("build", "b_empty"), ("DFXP", "dfxp_sloppy")]
 
     def mk(item):
         return {"op": "build", "desc": item[1]} if item[0] == "build" else \
